@@ -12,8 +12,6 @@ EXTENDS XotForest
 
 DeclsAtK(N, i) == IF N[i].k = "elem" THEN {<<N[x].ln, N[x].u>> : x \in SeqRange(NsKids(N, i))} ELSE {}
 
-KnownId(prop, e, N, cons, detail) == ""
-
 \* parser engine: e = the event (input + runs), entry = the entry point, detail = the rejection
 KnownParse(prop, e, entry, detail) == ""
 
@@ -43,5 +41,40 @@ KnownSer(prop, e, detail) ==
        ELSE IF prop = "C14" /\ e.frag /\ e.decl # 0 /\ detail[1] = "output is rejected by the parser"
        THEN "K-C14-declaration-on-fragment"
        ELSE ""
+
+\* forest engine.  K-C10: create_missing_prefixes does not repair an element in no namespace that sits below a
+\* default-namespace declaration (the same open finding as in the serialiser); signature: the only names left unusable
+\* after the call are such elements / the only names that reparse differently are such elements.
+UnprefixedUnderDefault(N, x) == N[x].k = "elem" /\ N[x].ns = "" /\ (\E b \in InScope(N, x) : b[1] = "")
+KnownId(prop, e, N, cons, detail) ==
+    IF prop = "C10" /\ e.op = "cmp" /\ detail[1] = "relation" /\ Len(detail) >= 7
+          /\ detail[3] = TRUE /\ detail[5] = TRUE /\ detail[7] # {}
+          /\ \A x \in detail[7] : UnprefixedUnderDefault(e.post.n, x)
+    THEN "K-C10-unprefixed-element-under-default-namespace"
+    ELSE IF prop = "C10" /\ e.op = "cmp" /\ detail[1] = "after create_missing_prefixes the tree does not serialise / reparse deep-equal"
+          /\ e.spost.res = "ok" /\ e.spost.re = "ok"
+          /\ LET P == e.post.n
+                  rr == IF P[e.spost.root].k = "doc" THEN e.spost.reroot ELSE DocElemK(e.spost.retree.n, e.spost.reroot)
+              IN rr # 0 /\ NameSeqAsWritten(P, e.spost.root) = NameSeqK(e.spost.retree.n, rr)
+                        /\ NameSeqK(P, e.spost.root) # NameSeqK(e.spost.retree.n, rr)
+    THEN "K-C10-unprefixed-element-under-default-namespace"
+    \* K-C15: deduplicate_namespaces removes a declaration whose namespace is also bound in the enclosing scope although
+    \* that outer prefix is shadowed at (or below) the element - the names that relied on the removed declaration lose
+    \* their only usable prefix.  Signature: every name that became unusable has a removed declaration of its namespace
+    \* on an ancestor-or-self element whose parent scope binds that namespace.
+    ELSE IF prop = "C15" /\ e.op \in {"dedup", "dedup2"}
+          /\ detail[1] \in {"relation", "a tree that serialised before deduplicate_namespaces does not any more / reparses differently"}
+          /\ LET P == IF e.op = "dedup2" /\ e.res = "ok" THEN e.mid.n ELSE e.post.n
+                  x0 == e.a[1]
+                  lost == {x \in Named(N, x0) : NameUsable(N, x) /\ ~NameUsable(P, x)}
+                  removed == {r \in 1..Len(N) : N[r].k = "nsn" /\ P[r].k = "rm"}
+              IN /\ Len(P) = Len(N) /\ P = FreeSet(N, removed)
+                 /\ lost # {}
+                 /\ \A x \in lost : \E r \in removed :
+                        /\ N[r].u = N[x].ns
+                        /\ N[r].p \in AncOrSelf(N, x)
+                        /\ N[N[r].p].p # 0 /\ \E b \in InScope(N, N[N[r].p].p) : b[2] = N[r].u
+    THEN "K-C15-dedup-under-shadowed-prefix"
+    ELSE ""
 
 =============================================================================
